@@ -20,6 +20,10 @@ CLAIMED = {
         text="Hypothesis-generated allocation/drop histories (13 object kinds, sizes from 1 word to 8 MB, bursts, explicit collections) repeated for 8-16 rounds; after every collection the hook's checker validates exact tiling, address-ordered non-overlapping in-bounds free list, clear mark bits and that every slot of every live object designates an object start, and a shadow mark validates reachability before marking; leak oracle: heap total bounded by a multiple of peak live data and not growing between the middle and the last round; exploration only",
         note="trusted: the checker in harness/verif_gc.h; leak-bound constants (16 x peak live + 8 x largest request + 4 MB; 1.5 x mid-run total) calibrated on the unchanged tree (worst observed total/peak-live ratio 37 for bursty histories with small live sets, covered by the additive terms)",
         technique="stateful property-based testing (Hypothesis) with an invariant checker run at every collection and a boundedness oracle"),
+    "C01": dict(
+        text="call histories (1-10 steps) over a run-time table of every procedure exported by the 15 R7RS-small libraries plus the (chibi) VM primitives (~370 procedures) applied to 0..arity+2 arguments from a typed pool with boundary and ill-typed values, plus generated/mutated source text through both readers and eval, plus nesting depths to 200000; each case runs in a forked child of an ASan build whose Scheme heap is poisoned by the gc.c hook; oracles: no signal / sanitizer report, heap checker after a final collection, and a fixed probe program printing exactly what it prints in a pristine context; exploration only",
+        note="non-termination is inconclusive, not a violation; out-of-memory under the 256 MB heap limit is excluded by the property; two open known findings (generic object printer on non-output ports, native reader recursion depth) are excluded by construction and reported as KNOWN-FINDING; record-system internals (make-getter etc.) are outside the claimed domain",
+        technique="property-based fuzzing of call sequences and source text with sanitizer (ASan + heap poisoning) and containment-probe oracles"),
 }
 
 NOT_YET = "check not built yet in this session (planned, see DESIGN.md section 4)"
